@@ -36,11 +36,14 @@ Proof. intros H. apply N.ltb_ge in H. lia. Qed.
 
 Section Sim.
 Variable pv : N.
+Variable sv : N.
 Variable bound : N.
 Variable u : counts.
+Variable fl : list (N * nat).
+Variable W : world.
 
-Notation okstep := (okstep pv bound).
-Notation rel := (rel pv bound).
+Notation okstep := (okstep pv sv bound u fl W).
+Notation rel := (rel pv sv bound u fl W).
 Notation ctx_ok := (ctx_ok bound).
 
 Lemma okstep_refl sc e st F c c' E stL : rel sc e st E stL -> okstep sc e st F c c' E stL [] E stL F.
@@ -57,12 +60,12 @@ Lemma step_local sc e st F c c' E stL l t ex lv :
     sget (fmt_var t) E' = Some p /\ get_cell stL' p = lv.
 Proof.
   intros Hrel [Hb Hl HF HE] Ht Hp.
-  destruct (op_local c c' E stL t ex lv (r_wf _ _ _ _ _ _ _ Hrel) (r_linv _ _ _ _ _ _ _ Hrel) (HE t Ht) Ht Hp)
+  destruct (op_local c c' E stL t ex lv (r_wf _ _ _ _ _ _ _ _ _ _ _ Hrel) (r_linv _ _ _ _ _ _ _ _ _ _ _ Hrel) (HE t Ht) Ht Hp)
     as (stm & Hx & Hex & Hfr).
   exists (sset (fmt_var t) (s_ncell stm) E), (snd (alloc_cell stm lv)), (s_ncell stm).
   split; [|split; [apply sget_sset_same | apply get_cell_alloc_new]].
   split; [apply ExecS_one; exact Hex|]. split; [apply lframe_w; exact Hfr|]. split.
-  - eapply rel_lframe; [exact Hrel | exact Hfr | exact Hb |]. cbn [alloc_cell snd s_out]. apply Hx.
+  - apply (rel_op_local pv sv bound u fl W sc e st E stL stm t lv Hrel Hx); lia.
   - split; [|eapply keep_lframe; eassumption].
     split; [apply incl_tl, incl_refl|]. intros t' [<-|Ht']; [right; exact Ht | left; exact Ht'].
 Qed.
@@ -76,12 +79,12 @@ Lemma step_copy sc e st F c c' E stL l t a :
     (1 <= count_of u t -> denotes F' E' stL' (aexpand l t) x).
 Proof.
   intros Hrel Hctx Ht Ha.
-  destruct (r_vars _ _ _ _ _ _ _ Hrel a Ha) as (ca & x & p & Hlk & Hnth & Hp & Hv).
+  destruct (r_vars _ _ _ _ _ _ _ _ _ _ _ Hrel a Ha) as (ca & x & p & Hlk & Hnth & Hp & Hv).
   exists ca, x. split; [exact Hlk|]. split; [exact Hnth|].
   pose proof Hctx as [Hb Hl HF HE].
   cbn [agen_one]. destruct (0 <? count_of u t) eqn:Hu; cbn [fst].
   - rewrite (aname_none l t) by (apply Hl; left; exact Ht).
-    rewrite (aexpand_user bound l c c' a Hl) by (apply (r_scb _ _ _ _ _ _ _ Hrel a Ha)).
+    rewrite (aexpand_user bound l c c' a Hl) by (apply (r_scb _ _ _ _ _ _ _ _ _ _ _ Hrel a Ha)).
     destruct (step_local sc e st F c c' E stL l t (EVar (fmt_var a)) (get_cell stL p) Hrel Hctx Ht) as (E' & stL' & q & Hok & Hq & Hc).
     { apply (PureEval_noncall _ _ _ _ stL); [reflexivity | apply Eval_local; exact Hp | apply cells_ext_refl]. }
     exists E', stL', (t :: F). split; [exact Hok|]. intros _.
@@ -101,10 +104,10 @@ Proof.
   intros Hrel Hctx Ht Hu. pose proof Hctx as [Hb Hl HF HE].
   cbn [agen_one]. assert (Hused : (0 <? count_of u t) = true) by (apply N.ltb_lt; lia). rewrite Hused. cbn [fst].
   rewrite (aname_none l t) by (apply Hl; left; exact Ht).
-  rewrite (aexpand_user bound l c c' pv Hl) by (apply (r_pvb _ _ _ _ _ _ _ Hrel)).
+  rewrite (aexpand_user bound l c c' pv Hl) by (apply (r_pvb _ _ _ _ _ _ _ _ _ _ _ Hrel)).
   destruct (step_local sc e st F c c' E stL l t (EVar (fmt_var pv)) (VBuiltin BPrint) Hrel Hctx Ht) as (E' & stL' & q & Hok & Hq & Hc).
   { apply (PureEval_noncall _ _ _ _ stL); [reflexivity | | apply cells_ext_refl].
-    apply Eval_global; [apply (r_pvE _ _ _ _ _ _ _ Hrel) | apply (r_pvG _ _ _ _ _ _ _ Hrel) | reflexivity]. }
+    apply Eval_global; [apply (r_pvE _ _ _ _ _ _ _ _ _ _ _ Hrel) | apply (r_pvG _ _ _ _ _ _ _ _ _ _ _ Hrel) | reflexivity]. }
   exists E', stL', (t :: F). split; [exact Hok|].
   unfold aexpand. rewrite (Hl t) by (left; exact Ht).
   eapply ldenotes_local; [left; reflexivity | exact Hq | exact Hc].
@@ -116,7 +119,7 @@ Definition s_emit (st : sstate) (s : string) : sstate :=
 
 Lemma rel_emit sc e st E stL s : rel sc e st E stL -> rel sc e (s_emit st s) E (emit_line stL s).
 Proof.
-  intros [Hv Hb Hi Hp Hpb HpE HpG Hwf Ht Hl]. constructor.
+  intros [Hv Hb Hi Hp Hpb HpE HpG Hwf Ht Hl HW]. constructor.
   - exact Hv.
   - exact Hb.
   - exact Hi.
@@ -127,6 +130,7 @@ Proof.
   - eapply wfenv_ext; [exact Hwf | cbn; lia].
   - cbn [s_emit SyltSem.trace emit_line s_out]. congruence.
   - apply linv_emit_line. exact Hl.
+  - apply (winv_states pv sv bound u fl W sc e st E stL (s_emit st s) (emit_line stL s) HW); auto. cbn; lia.
 Qed.
 
 Lemma lframe_emit c c' E st s : wfenv E st -> linv st -> lframe c c' E st E (emit_line st s).
@@ -155,7 +159,7 @@ Lemma step_call_print sc e st F c c' E stL l v tf a x :
     denotes F' E' stL' (aexpand l v) (SV Values.VLuaNil).
 Proof.
   intros Hrel Hctx Hv Hf Ha. pose proof Hctx as [Hb Hl HF HE].
-  pose proof (r_wf _ _ _ _ _ _ _ Hrel) as Hwf. pose proof (r_linv _ _ _ _ _ _ _ Hrel) as Hli.
+  pose proof (r_wf _ _ _ _ _ _ _ _ _ _ _ Hrel) as Hwf. pose proof (r_linv _ _ _ _ _ _ _ _ _ _ _ Hrel) as Hli.
   cbn [agen_one fst map]. rewrite (aname_none l v) by (apply Hl; left; exact Hv).
   destruct (Hf E stL (fut_refl _ _ _) Hwf Hli) as (st1 & Hef & _ & Hx1).
   assert (Hwf1 : wfenv E st1) by (eapply wfenv_ext; [exact Hwf | apply Hx1]).
@@ -180,12 +184,116 @@ Proof.
   - split; [apply ExecS_one; exact Hex|]. split; [|split; [|split]].
     + apply lframe_w. eapply lframe_trans; [apply lframe_cells_ext; eassumption|].
       eapply lframe_trans; [apply lframe_emit; assumption|].
-      apply lframe_local; [apply (r_wf _ _ _ _ _ _ _ Hrel3) | apply (r_linv _ _ _ _ _ _ _ Hrel3) | apply HE; exact Hv | exact Hv].
+      apply lframe_local; [apply (r_wf _ _ _ _ _ _ _ _ _ _ _ Hrel3) | apply (r_linv _ _ _ _ _ _ _ _ _ _ _ Hrel3) | apply HE; exact Hv | exact Hv].
     + apply rel_local_temp; [exact Hrel3 | lia].
     + split; [apply incl_tl, incl_refl|]. intros t' [<-|Ht']; [right; exact Hv | left; exact Ht'].
-    + intros w Hw. apply sget_sset_var. destruct (r_scb _ _ _ _ _ _ _ Hrel w Hw). lia.
+    + intros w Hw. apply sget_sset_var. destruct (r_scb _ _ _ _ _ _ _ _ _ _ _ Hrel w Hw). lia.
   - unfold aexpand. rewrite (Hl v) by (left; exact Hv).
     eapply denotes_local; [left; reflexivity | apply sget_sset_same | rewrite get_cell_alloc_new; constructor].
+Qed.
+
+(* ---- calls of top-level functions ---- *)
+
+(* ICopy t f: the callee of a call of the function f *)
+Lemma step_copy_fun sc e st F c c' E stL l t d :
+  rel sc e st E stL -> ctx_ok l F E c c' -> c <= t < c' -> 1 <= count_of u t ->
+  In d (w_funs W) -> In (fd_var d) (fnames fl) ->
+  exists E' stL' F',
+    okstep sc e st F c c' E stL (fst (agen_one u l (ICopy t (fd_var d)))) E' stL' F' /\
+    ldenotes F' E' stL' (aexpand l t) (VFun (fd_fid d)).
+Proof.
+  intros Hrel Hctx Ht Hu Hd Hvis. pose proof Hctx as [Hb Hl HF HE].
+  pose proof (r_world _ _ _ _ _ _ _ _ _ _ _ Hrel) as HW.
+  destruct (wi_visL _ _ _ _ _ _ _ _ _ _ _ HW d Hd Hvis) as [Hname _].
+  destruct (wi_fun _ _ _ _ _ _ _ _ _ _ _ HW d Hd) as (Hst & _ & HIL).
+  destruct (wi_IL _ _ _ _ _ _ _ _ _ _ _ HW _ _ HIL) as [Hcell _].
+  cbn [agen_one]. assert (Hused : (0 <? count_of u t) = true) by (apply N.ltb_lt; lia). rewrite Hused. cbn [fst].
+  rewrite (aname_none l t) by (apply Hl; left; exact Ht).
+  rewrite (aexpand_user bound l c c' (fd_var d) Hl) by (apply (fs_var _ _ _ _ _ Hst)).
+  destruct (step_local sc e st F c c' E stL l t (EVar (fmt_var (fd_var d))) (VFun (fd_fid d)) Hrel Hctx Ht) as (E' & stL' & q & Hok & Hq & Hc).
+  { apply (PureEval_noncall _ _ _ _ stL); [reflexivity | | apply cells_ext_refl]. rewrite <- Hcell. apply Eval_local. exact Hname. }
+  exists E', stL', (t :: F). split; [exact Hok|].
+  unfold aexpand. rewrite (Hl t) by (left; exact Ht).
+  eapply ldenotes_local; [left; reflexivity | exact Hq | exact Hc].
+Qed.
+
+(* the arguments of a call, evaluated from left to right when the call is made *)
+Lemma denotes_list F E : forall xs avs st,
+  Forall2 (fun av x => denotes F E st x av) avs xs -> wfenv E st -> linv st ->
+  exists lvs stb, EvalList E xs st (ROk lvs stb) /\ cells_ext st stb /\ Forall2 vrel avs lvs.
+Proof.
+  induction xs as [|x xs IH]; intros avs st Hd Hwf Hli.
+  - inversion Hd; subst. exists [], st. split; [apply EvalList_nil | split; [apply cells_ext_refl | constructor]].
+  - inversion Hd as [|av x' avs' xs' Hdx Hrest]; subst.
+    destruct (denotes_now _ _ _ _ _ Hdx Hwf Hli) as (lv & Hv & st1 & Hev & Hm & Hx1).
+    destruct xs as [|x2 xs].
+    + inversion Hrest; subst. exists [lv], st1. split; [apply EvalList_one; exact Hm | split; [exact Hx1 | repeat constructor; exact Hv]].
+    + assert (Hwf1 : wfenv E st1) by (eapply wfenv_ext; [exact Hwf | apply Hx1]).
+      assert (Hli1 : linv st1) by (eapply cells_ext_linv; eassumption).
+      assert (Hrest1 : Forall2 (fun av x => denotes F E st1 x av) avs' (x2 :: xs)).
+      { clear Hd IH. induction Hrest as [|a b la lb Hab _ IHr]; constructor; [|exact IHr].
+        eapply denotes_mono; [exact Hab | apply fut_cells_ext; assumption | apply incl_refl]. }
+      destruct (IH avs' st1 Hrest1 Hwf1 Hli1) as (lvs & stb & Hel & Hxb & Hvs).
+      exists (lv :: lvs), stb. split; [eapply EvalList_cons; [discriminate | exact Hev | exact Hel]|].
+      split; [eapply (cells_ext_trans st st1 stb); eassumption | constructor; assumption].
+Qed.
+
+(* ICall v tf args: `local V<v> = <tf>(<args>)` for a top-level function *)
+Lemma step_call_fun n ctx sc e st F c c' E stL l v tf (vs : list N) avs d r st' :
+  P_apply pv sv bound u fl W n ->
+  rel sc e st E stL -> ctx_ok l F E c c' -> c <= v < c' ->
+  In d (w_funs W) -> In (fd_var d) (fnames fl) ->
+  ldenotes F E stL (aexpand l tf) (VFun (fd_fid d)) ->
+  Forall2 (fun av t => denotes F E stL (aexpand l t) av) avs vs ->
+  SyltSem.apply n (SyltSem.SClos (fd_ci d)) avs st = (r, st') -> interesting r ->
+  match r with
+  | SyltSem.RVal rv =>
+      exists E' stL' F', okstep sc e st' F c c' E stL (fst (agen_one u l (ICall v tf vs))) E' stL' F' /\
+                         denotes F' E' stL' (aexpand l v) rv
+  | _ => exit_post pv sv bound u fl W ctx sc e c c' E stL (fst (agen_one u l (ICall v tf vs))) r st'
+  end.
+Proof.
+  intros IHa Hrel Hctx Hv Hd Hvis Hf Hargs Hap Hint. pose proof Hctx as [Hb Hl HF HE].
+  pose proof (r_wf _ _ _ _ _ _ _ _ _ _ _ Hrel) as Hwf. pose proof (r_linv _ _ _ _ _ _ _ _ _ _ _ Hrel) as Hli.
+  cbn [agen_one fst]. rewrite (aname_none l v) by (apply Hl; left; exact Hv).
+  destruct (Hf E stL (fut_refl _ _ _) Hwf Hli) as (st1 & Hef & _ & Hx1).
+  assert (Hwf1 : wfenv E st1) by (eapply wfenv_ext; [exact Hwf | apply Hx1]).
+  assert (Hli1 : linv st1) by (eapply cells_ext_linv; eassumption).
+  assert (Hargs1 : Forall2 (fun av x => denotes F E st1 x av) avs (map (aexpand l) vs)).
+  { clear Hap. induction Hargs as [|av t avs' vs' Hd1 _ IH]; cbn [map]; constructor; [|exact IH].
+    eapply denotes_mono; [exact Hd1 | apply fut_cells_ext; assumption | apply incl_refl]. }
+  destruct (denotes_list F E _ _ st1 Hargs1 Hwf1 Hli1) as (lvs & stb & Hel & Hxb & Hvs).
+  assert (Hx1b : cells_ext stL stb) by (eapply cells_ext_trans; eassumption).
+  assert (Hrelb : rel sc e st E stb) by (eapply rel_cells_ext; eassumption).
+  pose proof (IHa d avs lvs sc e st E stb r st' Hrelb Hd Hvis Hvs Hap Hint) as Hres.
+  destruct r as [rv|o|cc]; [| |destruct Hres].
+  - destruct Hres as (rvs & stLr & Hcall & Hvr & Hrelr & Hnc & Hfr).
+    assert (Hec : EvalCall E (aexpand l tf) (map (aexpand l) vs) stL (ROk rvs stLr))
+      by (eapply EvalCall_intro; [exact Hef | exact Hel | exact Hcall]).
+    pose proof (Exec_local E [fmt_var v] [ECall (aexpand l tf) (map (aexpand l) vs)] stL rvs stLr
+                  (EvalList_one _ _ _ _ (EvalMulti_call _ _ _ _ _ Hec))) as Hex.
+    rewrite bind_locals_one in Hex. cbn [fst snd] in Hex.
+    exists (sset (fmt_var v) (s_ncell stLr) E), (snd (alloc_cell stLr (first rvs))), (v :: F). split.
+    + split; [apply ExecS_one; exact Hex|]. split; [|split; [|split]].
+      * assert (Hncb : (s_ncell stL <= s_ncell stb)%positive) by (destruct Hx1b as (_ & _ & _ & _ & _ & _ & H & _); exact H).
+        constructor.
+        -- intros t p Hbt Hp. rewrite sget_sset_var; [exact Hp|]. intros ->. rewrite (HE v Hv) in Hp. discriminate.
+        -- intros x p Hx. destruct (string_dec x (fmt_var v)) as [->|Hne].
+           ++ right. left. exists v. split; [reflexivity | exact Hv].
+           ++ left. rewrite sget_sset_other in Hx by exact Hne. exact Hx.
+        -- intros t p Hbt _ Hp. rewrite get_cell_alloc_old by (pose proof (wf_alloc _ _ Hwf _ _ Hp); lia).
+           rewrite (Hfr t p Hbt Hp). apply Hx1b. eapply wf_alloc; eassumption.
+        -- cbn [alloc_cell snd s_ncell]. lia.
+      * apply rel_local_temp; [exact Hrelr | lia].
+      * split; [apply incl_tl, incl_refl|]. intros t' [<-|Ht']; [right; exact Hv | left; exact Ht'].
+      * intros w Hw. apply sget_sset_var. destruct (r_scb _ _ _ _ _ _ _ _ _ _ _ Hrel w Hw). lia.
+    + unfold aexpand. rewrite (Hl v) by (left; exact Hv).
+      eapply denotes_local; [left; reflexivity | apply sget_sset_same | rewrite get_cell_alloc_new; exact Hvr].
+  - destruct Hres as (ev & stLr & Hcall & Htr).
+    exists (RErr ev stLr). split.
+    + apply XS_stop; [|intros []]. apply Exec_local_err. apply EvalList_one. apply EvalMulti_call.
+      eapply EvalCall_intro; [exact Hef | exact Hel | exact Hcall].
+    + cbn [exit_ok]. exists ev, stLr. split; [reflexivity | exact Htr].
 Qed.
 
 (* IAssert c: assert(xc, "Assert failed!") *)
@@ -197,7 +305,7 @@ Lemma step_assert sc e st F E stL l t (b : bool) :
   else exists ev stL', ExecS E (fst (agen_one u l (IAssert t))) stL (RErr ev stL') /\ SyltSem.trace st = s_out stL'.
 Proof.
   intros Hrel Hd.
-  pose proof (r_wf _ _ _ _ _ _ _ Hrel) as Hwf. pose proof (r_linv _ _ _ _ _ _ _ Hrel) as Hli.
+  pose proof (r_wf _ _ _ _ _ _ _ _ _ _ _ Hrel) as Hwf. pose proof (r_linv _ _ _ _ _ _ _ _ _ _ _ Hrel) as Hli.
   cbn [agen_one fst].
   destruct (denotes_now _ _ _ _ _ Hd Hwf Hli) as (lv & Hv & st1 & Hev & _ & Hx1).
   inversion Hv; subst.
@@ -213,7 +321,7 @@ Proof.
   - exists (VStr "Assert failed!"), st1. split.
     + apply ExecS_one. apply Exec_call_err. eapply EvalCall_intro; [exact Hg | exact Hargs |].
       exact (Call_pure_builtin BAssert [VBool false; VStr "Assert failed!"] st1 I).
-    + rewrite (r_trace _ _ _ _ _ _ _ Hrel). symmetry. apply Hx1.
+    + rewrite (r_trace _ _ _ _ _ _ _ _ _ _ _ Hrel). symmetry. apply Hx1.
 Qed.
 
 (* IDefine t for a temporary (the result variable of and/or/if): `local V<t> = nil`; t is NOT frozen *)
@@ -221,10 +329,10 @@ Lemma step_define_temp sc e st F c c' E stL l t :
   rel sc e st E stL -> ctx_ok l F E c c' -> c <= t < c' -> 1 <= count_of u t ->
   exists E' stL' p,
     okstep sc e st F c c' E stL (fst (agen_one u l (IDefine t))) E' stL' F /\
-    sget (fmt_var t) E' = Some p /\ get_cell stL' p = VNil.
+    sget (fmt_var t) E' = Some p /\ get_cell stL' p = VNil /\ (forall lv, ~ w_IL W p lv).
 Proof.
   intros Hrel [Hb Hl HF HE] Ht Hu.
-  pose proof (r_wf _ _ _ _ _ _ _ Hrel) as Hwf. pose proof (r_linv _ _ _ _ _ _ _ Hrel) as Hli.
+  pose proof (r_wf _ _ _ _ _ _ _ _ _ _ _ Hrel) as Hwf. pose proof (r_linv _ _ _ _ _ _ _ _ _ _ _ Hrel) as Hli.
   cbn [agen_one]. assert (Hused : (0 <? count_of u t) = true) by (apply N.ltb_lt; lia). rewrite Hused. cbn [fst].
   rewrite (aname_none l t) by (apply Hl; left; exact Ht).
   assert (Hex : Exec E (SLocal [fmt_var t] [ENil]) stL
@@ -233,23 +341,24 @@ Proof.
                   (EvalList_one _ _ _ _ (EvalMulti_single E ENil stL VNil stL eq_refl (Eval_nil E stL)))) as H.
     rewrite bind_locals_one in H. exact H. }
   exists (sset (fmt_var t) (s_ncell stL) E), (snd (alloc_cell stL VNil)), (s_ncell stL).
-  split; [|split; [apply sget_sset_same | apply get_cell_alloc_new]].
+  split; [|split; [apply sget_sset_same | split; [apply get_cell_alloc_new|]]].
+  2: { intros lv Hlv. destruct (wi_IL _ _ _ _ _ _ _ _ _ _ _ (r_world _ _ _ _ _ _ _ _ _ _ _ Hrel) _ _ Hlv) as [_ Hlt]. lia. }
   split; [apply ExecS_one; exact Hex|]. split; [apply lframe_w; apply lframe_local; [exact Hwf | exact Hli | apply HE; exact Ht | exact Ht]|].
   split; [apply rel_local_temp; [exact Hrel | lia]|]. split; [apply F_new_refl|].
-  intros w Hw. apply sget_sset_var. destruct (r_scb _ _ _ _ _ _ _ Hrel w Hw). lia.
+  intros w Hw. apply sget_sset_var. destruct (r_scb _ _ _ _ _ _ _ _ _ _ _ Hrel w Hw). lia.
 Qed.
 
 (* IAssign t a for a temporary t that is a local: `V<t> = xa` *)
 Lemma step_assign_temp sc e st F c c' E stL l t a p sv_ :
   rel sc e st E stL -> bound <= c -> c <= t < c' -> 1 <= count_of u t ->
-  sget (fmt_var t) E = Some p -> alut_get l t = None ->
+  sget (fmt_var t) E = Some p -> (forall lv, ~ w_IL W p lv) -> alut_get l t = None ->
   denotes F E stL (aexpand l a) sv_ ->
   exists stL' lv,
     okstep sc e st F c c' E stL (fst (agen_one u l (IAssign t a))) E stL' F /\
     get_cell stL' p = lv /\ vrel sv_ lv.
 Proof.
-  intros Hrel Hb Ht Hu Hp Hnone Hd.
-  pose proof (r_wf _ _ _ _ _ _ _ Hrel) as Hwf. pose proof (r_linv _ _ _ _ _ _ _ Hrel) as Hli.
+  intros Hrel Hb Ht Hu Hp Hnp Hnone Hd.
+  pose proof (r_wf _ _ _ _ _ _ _ _ _ _ _ Hrel) as Hwf. pose proof (r_linv _ _ _ _ _ _ _ _ _ _ _ Hrel) as Hli.
   cbn [agen_one]. assert (Hused : (0 <? count_of u t) = true) by (apply N.ltb_lt; lia). rewrite Hused. cbn [fst].
   unfold aexpand at 1. rewrite Hnone.
   destruct (denotes_now _ _ _ _ _ Hd Hwf Hli) as (lv & Hv & st1 & _ & Hm & Hx1).
@@ -260,7 +369,7 @@ Proof.
   exists (set_cell st1 p lv), lv. split; [|split; [apply get_cell_set_same | exact Hv]].
   split; [apply ExecS_one; exact Hex|]. split; [|split; [|split; [apply F_new_refl | apply keep_refl]]].
   - apply lframe_w. eapply lframe_trans; [apply lframe_cells_ext; eassumption | eapply lframe_set; eassumption].
-  - apply (rel_set_temp pv bound sc e st E st1 t p lv); [eapply rel_cells_ext; eassumption | lia | exact Hp].
+  - apply (rel_set_temp pv sv bound u fl W sc e st E st1 t p lv); [eapply rel_cells_ext; eassumption | lia | exact Hp | exact Hnp].
 Qed.
 
 (* leaving a Lua block: the environment before the block, the state after it *)
@@ -268,33 +377,41 @@ Lemma rel_restrict sc e0 st0 e st E E' stL stL' :
   rel sc e0 st0 E stL -> rel sc e st E' stL' -> keep sc E E' -> (s_ncell stL <= s_ncell stL')%positive ->
   rel sc e st E stL'.
 Proof.
-  intros H0 [Hv Hb Hi Hp Hpb HpE HpG Hwf Ht Hl] Hk Hnc. constructor.
+  intros H0 [Hv Hb Hi Hp Hpb HpE HpG Hwf Ht Hl HW] Hk Hnc. constructor.
   - intros w Hin. destruct (Hv w Hin) as (cc & x & p & H1 & H2 & H3 & H4).
     exists cc, x, p. repeat split; auto. rewrite <- (Hk w Hin). exact H3.
   - exact Hb.
   - exact Hi.
   - exact Hp.
   - exact Hpb.
-  - apply (r_pvE _ _ _ _ _ _ _ H0).
+  - apply (r_pvE _ _ _ _ _ _ _ _ _ _ _ H0).
   - exact HpG.
-  - eapply wfenv_ext; [apply (r_wf _ _ _ _ _ _ _ H0) | exact Hnc].
+  - eapply wfenv_ext; [apply (r_wf _ _ _ _ _ _ _ _ _ _ _ H0) | exact Hnc].
   - exact Ht.
   - exact Hl.
+  - pose proof (r_world _ _ _ _ _ _ _ _ _ _ _ H0) as HW0.
+    apply (winv_env pv sv bound u fl W sc e st E' stL' sc e E HW).
+    + apply (wi_scS _ _ _ _ _ _ _ _ _ _ _ HW).
+    + apply (wi_scfl _ _ _ _ _ _ _ _ _ _ _ HW).
+    + apply (wi_lprot _ _ _ _ _ _ _ _ _ _ _ HW0).
+    + apply (wi_visS _ _ _ _ _ _ _ _ _ _ _ HW).
+    + apply (wi_visL _ _ _ _ _ _ _ _ _ _ _ HW0).
+    + apply (wi_vsc _ _ _ _ _ _ _ _ _ _ _ HW).
 Qed.
 
-Notation okstepS := (okstepS pv bound).
-Notation sext := (sext pv).
+Notation okstepS := (okstepS pv sv bound u fl W).
+Notation sext := (sext pv fl).
 
 Lemma sext_refl sc e : sext sc e e. Proof. intros v _. reflexivity. Qed.
 Lemma sext_trans sc sc1 e e1 e2 : sext sc e e1 -> sext sc1 e1 e2 -> incl sc sc1 -> sext sc e e2.
 Proof.
-  intros H1 H2 Hi v Hv. rewrite H2; [apply H1; exact Hv|]. destruct Hv as [Hv| ->]; [left; apply Hi; exact Hv | right; reflexivity].
+  intros H1 H2 Hi v Hv. rewrite H2; [apply H1; exact Hv|]. destruct Hv as [Hv|Hv]; [left; apply Hi; exact Hv | right; exact Hv].
 Qed.
 
-Lemma rel_shrink sc sc' e e' st E stL :
-  rel sc' e' st E stL -> incl sc sc' -> sext sc e e' -> rel sc e st E stL.
+Lemma rel_shrink sc sc' e e' st0 E0 stL0 st E stL :
+  rel sc e st0 E0 stL0 -> rel sc' e' st E stL -> incl sc sc' -> sext sc e e' -> rel sc e st E stL.
 Proof.
-  intros [Hv Hb Hi Hp Hpb HpE HpG Hwf Ht Hl] Hincl Hs. constructor.
+  intros H0 [Hv Hb Hi Hp Hpb HpE HpG Hwf Ht Hl HW] Hincl Hs. constructor.
   - intros w Hw. destruct (Hv w (Hincl w Hw)) as (cc & x & p & H1 & H2 & H3 & H4).
     exists cc, x, p. splits; auto. rewrite <- (Hs w (or_introl Hw)). exact H1.
   - intros w Hw. apply Hb. apply Hincl. exact Hw.
@@ -302,7 +419,7 @@ Proof.
     + rewrite (Hs v1 (or_introl H1)). exact Ha.
     + rewrite (Hs v2 (or_introl H2)). exact Hb2.
   - destruct Hp as (cp & Hlkp & Hnthp & Hdist). exists cp. splits.
-    + rewrite <- (Hs pv (or_intror eq_refl)). exact Hlkp.
+    + rewrite <- (Hs pv (or_intror (or_introl eq_refl))). exact Hlkp.
     + exact Hnthp.
     + intros w Hw. rewrite <- (Hs w (or_introl Hw)). apply Hdist. apply Hincl. exact Hw.
   - exact Hpb.
@@ -311,20 +428,34 @@ Proof.
   - exact Hwf.
   - exact Ht.
   - exact Hl.
+  - pose proof (r_world _ _ _ _ _ _ _ _ _ _ _ H0) as HW0.
+    apply (winv_env pv sv bound u fl W sc' e' st E stL sc e E HW).
+    + intros v c x Hv' Hlk. apply (wi_scS _ _ _ _ _ _ _ _ _ _ _ HW v c x (Hincl v Hv')). rewrite (Hs v (or_introl Hv')). exact Hlk.
+    + intros v Hv'. apply (wi_scfl _ _ _ _ _ _ _ _ _ _ _ HW v (Hincl v Hv')).
+    + intros v p lv Hv'. apply (wi_lprot _ _ _ _ _ _ _ _ _ _ _ HW v p lv (Hincl v Hv')).
+    + intros d Hd Hvis. destruct (wi_vsc _ _ _ _ _ _ _ _ _ _ _ HW0 d Hd Hvis) as [Hisc Hifl].
+      apply (fvisS_same pv e' e d (wi_visS _ _ _ _ _ _ _ _ _ _ _ HW d Hd Hvis)).
+      * symmetry. apply Hs. right. right. exact Hvis.
+      * intros g [[Hg|Hg]|Hg]; symmetry; apply Hs.
+        -- left. apply Hisc. exact Hg.
+        -- right. right. unfold fnames in *. apply (incl_map fst Hifl). exact Hg.
+        -- right. left. exact Hg.
+    + apply (wi_visL _ _ _ _ _ _ _ _ _ _ _ HW).
+    + apply (wi_vsc _ _ _ _ _ _ _ _ _ _ _ HW0).
 Qed.
 
 (* an exit after a prefix that ran normally; the ranges of both parts lie in [lo, hi) *)
 Lemma exit_pre_gen {A} ctx sc sc1 e e1 st st1 F F1 a b a2 b2 lo hi E stL b1 E1 stL1 bl2 (r : SyltSem.res A) st' :
   okstepS sc sc1 e1 st1 F a b E stL b1 E1 stL1 F1 -> rel sc e st E stL -> sext sc e e1 -> incl sc sc1 ->
-  exit_post pv bound ctx sc1 e1 a2 b2 E1 stL1 bl2 r st' -> lo <= a -> b <= hi -> lo <= a2 -> b2 <= hi ->
-  exit_post pv bound ctx sc e lo hi E stL (b1 ++ bl2) r st'.
+  exit_post pv sv bound u fl W ctx sc1 e1 a2 b2 E1 stL1 bl2 r st' -> lo <= a -> b <= hi -> lo <= a2 -> b2 <= hi ->
+  exit_post pv sv bound u fl W ctx sc e lo hi E stL (b1 ++ bl2) r st'.
 Proof.
   intros (Hx1 & Hf1 & Hr1 & Hn1 & Hk1) Hrel Hse Hinc (rl & Hx2 & Hok) Hla Hbh Hla2 Hbh2.
   exists rl. split; [eapply ExecS_app; eassumption|].
   assert (Hback : forall stL', rel sc1 e1 st' E1 stL' -> xkeep bound a2 b2 E1 stL1 stL' ->
                     rel sc e st' E stL' /\ xkeep bound lo hi E stL stL').
   { intros stL' Hr [Hnc Hc]. split.
-    - eapply (rel_restrict sc e st e st' E E1 stL stL'); [exact Hrel | eapply rel_shrink; eassumption | exact Hk1 |].
+    - eapply (rel_restrict sc e st e st' E E1 stL stL'); [exact Hrel | eapply rel_shrink; [exact Hrel | eassumption | eassumption | eassumption] | exact Hk1 |].
       pose proof (wr_ncell _ _ _ _ _ _ _ Hf1). lia.
     - split; [pose proof (wr_ncell _ _ _ _ _ _ _ Hf1); lia|].
       intros t p Hbt Hr' Hp. rewrite (Hc t p Hbt); [| lia | apply (wr_incl _ _ _ _ _ _ _ Hf1); assumption].
@@ -336,8 +467,8 @@ Qed.
 
 Lemma exit_pre {A} ctx sc sc1 e e1 st st1 F F1 c c0 c1 E stL b1 E1 stL1 b2 (r : SyltSem.res A) st' :
   okstepS sc sc1 e1 st1 F c c0 E stL b1 E1 stL1 F1 -> rel sc e st E stL -> sext sc e e1 -> incl sc sc1 ->
-  exit_post pv bound ctx sc1 e1 c0 c1 E1 stL1 b2 r st' -> c <= c0 -> c0 <= c1 ->
-  exit_post pv bound ctx sc e c c1 E stL (b1 ++ b2) r st'.
+  exit_post pv sv bound u fl W ctx sc1 e1 c0 c1 E1 stL1 b2 r st' -> c <= c0 -> c0 <= c1 ->
+  exit_post pv sv bound u fl W ctx sc e c c1 E stL (b1 ++ b2) r st'.
 Proof. intros H1 H2 H3 H4 H5 Ha Hb. eapply exit_pre_gen; try eassumption; lia. Qed.
 
 Lemma xkeep_cells_ext c c' E stL stc stL' :
@@ -350,8 +481,8 @@ Qed.
 (* an exit inside the chosen branch of an if leaves the if the same way *)
 Lemma exit_if {A} ctx sc e c c' E stL cnd t f vc stc (r : SyltSem.res A) st' :
   wfenv E stL -> Eval E cnd stL (ROk vc stc) -> cells_ext stL stc -> nolabel (if truthy vc then t else f) ->
-  exit_post pv bound ctx sc e c c' E stc (if truthy vc then t else f) r st' ->
-  exit_post pv bound ctx sc e c c' E stL [SIf cnd t f] r st'.
+  exit_post pv sv bound u fl W ctx sc e c c' E stc (if truthy vc then t else f) r st' ->
+  exit_post pv sv bound u fl W ctx sc e c c' E stL [SIf cnd t f] r st'.
 Proof.
   intros Hwf Hev Hx Hnl (rl & Hxs & Hok).
   pose proof (ExecBlock_of_ExecS_nil _ _ _ _ Hxs Hnl) as Hb.
